@@ -36,24 +36,41 @@ def shapes(rng):
                     'b': {'kind': 'plugin', 'pstep': 'work', 'fields': {'input': tmap({'id': lit('b')}), 'enabled': ref('input.flag')}}},
           'outputs': {'success': tmap({'r': ref('steps.a.outputs.success.tok'), 'd': ref('steps.b.disabled.output.message')})}}
     out.append((wf, {'a': okoc(), 'b': okoc(enabled=False)}, {'a': {'exec': {'out': 'success', 'delay_ms': 1}}, 'b': {}}, ['a', 'b']))
+    # slow deployment of a while b finishes: a state that is wrong during the whole deployment is seen by the detector
+    wf = {'steps': {'a': {'kind': 'plugin', 'pstep': 'work', 'fields': {'input': tmap({'id': lit('a')})}},
+                    'b': {'kind': 'plugin', 'pstep': 'work', 'fields': {'input': tmap({'id': lit('b')})}}},
+          'outputs': {'success': tmap({'r': ref('steps.a.outputs.success.tok'), 'q': ref('steps.b.outputs.success.tok')})}}
+    out.append((wf, {'a': okoc(), 'b': okoc()}, {'a': {'deploy': {'delay_ms': 150}, 'exec': {'out': 'success'}}, 'b': {'exec': {'out': 'success', 'delay_ms': 110}}}, ['a', 'b']))
     return out
+
+
+DEPLOY_GATES = ['plugin.deploy.beforeTry', 'plugin.deploy.beforeWait', 'plugin.deploy.beforeDeploy', 'x.deploy.run', 'wf.main.beforeKickoff']
 
 
 def extra(ctx):
     def f(rng):
         items = []
         sh = shapes(rng)
-        use = sh[:2] if ctx.quick else sh
+        use = (sh[:2] + [sh[-1]]) if ctx.quick else sh
         nths = [1, 3] if ctx.quick else [1, 2, 3, 4, 5, 6, 8]
         for wf, oc, script, steps in use:
             inp = {'x': 'x', 'n': 1, 'flag': False}
-            for gate in GATES:
+            for gate in (GATES if (not ctx.quick or wf is not sh[-1][0]) else DEPLOY_GATES):
                 targets = steps if (gate.startswith('plugin.') or gate.startswith('ev:S') or gate in ('wf.handler.beforeLock', 'wf.failure.beforeLock', 'x.deploy.run')) else ['']
                 for st in targets[:1] if ctx.quick else targets:
                     for nth in nths:
                         sch = {'stalls': [{'point': gate, 'step': st, 'nth': nth, 'ms': rng.choice([80, 120])}]}
                         items.append({'wf': wf, 'oc': oc, 'script': script, 'input': inp, 'schedule': sch, 'extra': {'timeout_ms': 15000},
                                       'stall': '%s@%s#%d' % (gate, st, nth)})
+        # two-site schedules for the slow-deployment shape: the kick-off is held back so that the step's first look at its
+        # deploy input misses, then the step is held between that miss and publishing "waiting" while the kick-off provides
+        wf, oc, script, steps = sh[-1]
+        for st in steps:
+            for kick, hold in ([(30, 80)] if ctx.quick else [(10, 40), (30, 80), (30, 150), (60, 120)]):
+                sch = {'stalls': [{'point': 'wf.main.beforeKickoff', 'step': '', 'nth': 1, 'ms': kick},
+                                  {'point': 'plugin.deploy.beforeWait', 'step': st, 'nth': 1, 'ms': hold}]}
+                items.append({'wf': wf, 'oc': oc, 'script': script, 'input': {'x': 'x', 'n': 1, 'flag': False}, 'schedule': sch,
+                              'extra': {'timeout_ms': 15000}, 'stall': 'wf.main.beforeKickoff+plugin.deploy.beforeWait@%s#1' % st})
         # random multi-site delays
         for k in range(6 if ctx.quick else 200):
             wf, oc, script, steps = rng.choice(sh)
